@@ -174,6 +174,15 @@ def hint_section_mutations(rng, p, sig):
         emit('swap two indices inside a polynomial (unsorted)', yy)
         yy = bytearray(y); yy[a + 1] = yy[a]
         emit('repeated index', yy)
+    nonempty = [i for i in range(k) if counts[i] - starts[i] >= 1]
+    if total < omega and nonempty:
+        # duplicate an index into a free slot: the decoded hint *set* is unchanged, only canonicity can reject
+        for i in (nonempty[0], nonempty[-1]):
+            a = starts[i]
+            yy = bytearray(y[:a + 1]) + bytearray([y[a]]) + bytearray(y[a + 1:omega - 1]) + bytearray(y[omega:])
+            for j in range(i, k):
+                yy[omega + j] += 1
+            emit(f'index duplicated into a free slot (same decoded set), polynomial {i}', yy)
     if total < omega:
         for pos in sorted({total, omega - 1, (total + omega) // 2}):
             yy = bytearray(y); yy[pos] = 1 + rng.randrange(255)
